@@ -1,3 +1,4 @@
+import AmrK.Names
 import AmrK.WritersSizes
 /-! # C06 — combine merges fields box by box, independent of either input's file layout -/
 namespace C06
@@ -18,5 +19,22 @@ example :
     ((combineLevel false [⟨"a", 0, 8, 80, 80, [1, 2]⟩, ⟨"a", 208, 8, 80, 80, [3, 4]⟩]
         [⟨"z", 300, 8, 80, 80, [5]⟩, ⟨"z", 0, 8, 80, 80, [6]⟩] [1] [0]).map (·.found))
       = [some (0, [2, 5]), some (1, [4, 6])] := by decide +kernel
+
+/-- **which fields combine writes**: the selection of the first input comes first and unchanged, a field
+    is present iff it is selected from the first input or selected from the second and not already
+    taken, the second input's contribution keeps the order of its selection, and no name occurs twice.
+    `Names.combine` is run by the driver and compared with the field list of every real output. -/
+theorem field_rule (n1 n2 : List String) (v1 v2 : Option (List String)) :
+    (Names.combine n1 n2 v1 v2).take (Names.select n1 v1).length = Names.select n1 v1 ∧
+    (∀ x, x ∈ Names.combine n1 n2 v1 v2 ↔ x ∈ Names.select n1 v1 ∨ (x ∈ Names.select n2 v2 ∧ x ∉ Names.select n1 v1)) ∧
+    ((Names.combine n1 n2 v1 v2).drop (Names.select n1 v1).length).Sublist (Names.select n2 v2) :=
+  ⟨Names.combine_first n1 n2 v1 v2, fun x => Names.mem_combine n1 n2 v1 v2 x, Names.combine_second_sublist n1 n2 v1 v2⟩
+
+theorem field_names_distinct (n1 n2 : List String) (v1 v2 : Option (List String)) (h1 : n1.Nodup) (h2 : n2.Nodup)
+    (hr1 : ∀ r, v1 = some r → r.Nodup) (hr2 : ∀ r, v2 = some r → r.Nodup) : (Names.combine n1 n2 v1 v2).Nodup :=
+  Names.combine_nodup n1 n2 v1 v2 h1 h2 hr1 hr2
+
+/-- non-vacuity: a shared name left out of the first selection is taken from the second input -/
+example : Names.combine ["a", "b", "c"] ["b", "d"] (some ["c", "x", "a"]) none = ["c", "a", "b", "d"] := by decide
 
 end C06
